@@ -37,7 +37,7 @@ def real_validate_many(items):
     return out
 
 
-def text_scenario(rng, payload, nfrag, ncuts, compress_negotiated=False, stop_after=None, ctrl_between=False, compressed=False, empty_final=False):
+def text_scenario(rng, payload, nfrag, ncuts, compress_negotiated=False, stop_after=None, ctrl_between=False, compressed=False, empty_final=False, empty_first=False):
     """one text message `payload` in nfrag frames, stream cut into reads; `compressed`: the message is sent compressed (RSV1;
        the fragments cut the COMPRESSED bytes); `empty_final`: an empty final fragment is appended"""
     sc = Scenario([], prate=0)
@@ -49,6 +49,8 @@ def text_scenario(rng, payload, nfrag, ncuts, compress_negotiated=False, stop_af
     parts = cut(wire, points) or [b'']
     if empty_final:
         parts = parts + [b'']
+    if empty_first:
+        parts = [b''] + parts
     frames = []
     for i, part in enumerate(parts):
         frames.append(server_frame(1 if i == 0 else 0, part, fin=1 if i == len(parts) - 1 else 0, rsv1=1 if (compressed and i == 0) else 0))
@@ -203,6 +205,27 @@ def explore(res, tier, seed, model_ok=True):
             for nfrag in (1, 2):
                 scs.append(text_scenario(rng, t_, nfrag, 0, compressed=comp, empty_final=True))
                 meta.append((t_, 'verdict', comp, False))
+    # an EMPTY first fragment (the text / compressed nature of the message is fixed by a frame that carries no payload), then the rest;
+    # and after such a compressed message an uncompressed invalid one (fail-fast must be back)
+    for t_ in (b'hello', '\u20ac uro'.encode('utf-8'), b'caf\xc3', b'\xff', b'ok\xe2\x82'):
+        for comp in (False, True):
+            for neg in (False, True):
+                if comp and not neg:
+                    continue
+                scs.append(text_scenario(rng, t_, 2, rng.choice([0, 10 ** 6]), compress_negotiated=neg, compressed=comp, empty_first=True))
+                meta.append((t_, 'verdict', neg, False))
+    # format directives in the bytes BEFORE the offending byte, the frame arriving in two or more reads (error texts built from buffered data)
+    for pre in (b'{"k": "', b'set {} is empty ', b'%s {0} ', b'{'):
+        for bad_ in (b'\xe2\x82"}', b'\xc0\xaf', b'\xff'):
+            p_ = pre + bad_
+            for ncuts in (1, 3, 10 ** 6):
+                scs.append(text_scenario(rng, p_, 1, ncuts))
+                meta.append((p_, 'verdict', False, False))
+            sc_ = Scenario([], prate=0)
+            fr_ = server_frame(1, p_)
+            hdr_ = len(fr_) - len(p_)
+            sc_.env = reads([sc_.good_reply() + fr_[:hdr_ + len(pre)], fr_[hdr_ + len(pre):]]) + [('wait', 1, ('eof',))]
+            scs.append(sc_); meta.append((p_, 'verdict', False, False))
     # targeted: a read that ends inside a multi-byte sequence, next read starts with the offending byte
     for lead in (b'\xc2', b'\xdf', b'\xe0', b'\xe0\xa0', b'\xe1\x80', b'\xed', b'\xed\x9f', b'\xef\xbf', b'\xf0', b'\xf0\x90', b'\xf0\x90\x80', b'\xf1\x80\x80', b'\xf4', b'\xf4\x8f\xbf'):
         for offending in (b'a', b' ', b'\xc2', b'\xff'):
